@@ -83,7 +83,7 @@ class GetBodyString(Contract):
                    'callee contract of _raise as proved: never returns, raises the mapped error (413 for BodySizeError)',
                    'max_memfile_size >= 0')
     expected_labels = ('post.at_most_the_threshold_returned', 'raise.only_when_more_than_threshold', 'call.read_asks_at_most_threshold_plus_one',
-                       'call.read_only_after_rewind')
+                       'call.read_only_after_rewind', 'call.read_asks_enough_to_detect_an_oversized_body')
 
     def pre(self, X):
         self.maxm = X.fresh(z3.IntSort(), 'max_memfile_size')
@@ -105,6 +105,9 @@ class GetBodyString(Contract):
             X.prove('call.read_only_after_rewind', z3.BoolVal(c.rewound))
             n = args[0].t if len(args) == 1 else args[1].t
             X.prove('call.read_asks_at_most_threshold_plus_one', z3.And(n >= 0, n <= c.maxm + 1))
+            # ... and enough to tell a body that fits from one that does not: the declared length when it is known, one byte more
+            # than the threshold when it is not (otherwise an over-long body of unknown length would be silently cut at the threshold)
+            X.prove('call.read_asks_enough_to_detect_an_oversized_body', n == z3.If(c.cl < 0, c.maxm + 1, c.cl))
             d = X.fresh(BytesSort, 'data')
             X.assume(L(d) <= n)
             c.data = d
